@@ -196,7 +196,10 @@ package atree
 //@   ensures[C11] !contV(child) ==> a.mutableElementIndex == old(a.mutableElementIndex)
 //@   ensures forall vid ValueID :: has(a.mutableElementIndex, vid) && a.mutableElementIndex[vid] != i ==> old(has(a.mutableElementIndex, vid)) && a.mutableElementIndex[vid] == old(a.mutableElementIndex[vid])
 //@   before[C10] mutableValueNotifier.setParentUpdater: maxInlineSize == ite(old(maxInlineSize) < wszV(child), 0, old(maxInlineSize) - wszV(child))
-//@   modifies a.mutableElementIndex, Array.parentUpdater, OrderedMap.parentUpdater, alloc
+//@   # a child container is ALWAYS given the updater of this parent, also when it still carries one from a former parent (C11: a detached
+//@   # container can be attached to another parent, and then reports to that one)
+//@   ensures[C10 C11] contV(child) ==> wired > old(wired)
+//@   modifies a.mutableElementIndex, Array.parentUpdater, OrderedMap.parentUpdater, ghost.wired, alloc
 
 //@ # ---- inline / standalone decision (C10): Storable() returns the root slab exactly when it is inlinable, else a reference to it
 //@ func (a *Array) Storable(storage, address, maxInlineSize) (st, err)  serves C10
@@ -251,6 +254,9 @@ package atree
 //@   before Array.notifyParentIfNeeded: old(is(a.root, *ArrayDataSlab)) ==> as(a.root, *ArrayDataSlab).inlined == old(as(a.root, *ArrayDataSlab).inlined) && as(a.root, *ArrayDataSlab).extraData == old(as(a.root, *ArrayDataSlab).extraData)
 //@   # a standalone root is written back (C03): the emptied root is in the write set when the parent is notified
 //@   before[C03 C08] Array.notifyParentIfNeeded: !as(a.root, *ArrayDataSlab).inlined ==> has(stored, a.root) && sto[as(a.root, *ArrayDataSlab).header.slabID] == a.root
+//@   # the parent is told about the emptied child whether or not the child lived inline: a child that became small enough has to move
+//@   # back into its parent (C10: stored inline exactly when it fits)
+//@   ensures[C10] err == nil ==> notified > old(notified)
 //@   modifies heap, ghost.sto, ghost.issued, ghost.stored, ghost.touched, ghost.notified, ghost.updFail, alloc
 
 //@ # ---- stale handles (C11): the updater closure installed on a child re-validates before touching the parent.
@@ -294,3 +300,9 @@ package atree
 //@ pred rootInlinableA(r ArraySlab, max int) = is(r, *ArrayDataSlab) && as(r, *ArrayDataSlab).extraData != nil &&
 //@      ite(as(r, *ArrayDataSlab).inlined, as(r, *ArrayDataSlab).header.size, as(r, *ArrayDataSlab).header.size - 5 + 17) <= max
 //@ pred rootInlinableM(r MapSlab, max int) = is(r, *MapDataSlab) && as(r, *MapDataSlab).extraData != nil && 14 + elsSize(as(r, *MapDataSlab).elements) <= max
+
+//@ # appending is inserting at the current element count
+//@ func (a *Array) Append(value) (err)  serves C01
+//@   requires value != nil && isArr(a.root)
+//@   before[C01] Array.Insert: arg_recv == a && arg_index == acount(a) && arg_value == value
+//@   modifies heap, ghost.sto, ghost.issued, ghost.stored, ghost.touched, ghost.notified, ghost.updFail, alloc
